@@ -298,33 +298,45 @@ def addToBurnState (sts : List DState) (c : DecCoins) : List DState :=
   | some pos => modifyNth sts pos (fun s => { s with remains := CoinList.add s.remains c })
   | none => sts ++ [{ account := some { id := "", type := "" }, burn := true, remains := CoinList.add [] c }]
 
-/-- `StartDistributionProcess` (D7 and D12 repairs) -/
-def startDistribution (sts : List DState) (x : DecCoins) (s : SubD) : Outcome (List DState × List Event) := do
-  let mut sts := sts
-  let mut dflt := x
-  let mut evs : List Event := []
-  for sh in s.shares do
+/-- the named-shares loop of `StartDistributionProcess`: `dflt` is what is left for the primary
+    share, `evs` the Distribution events so far -/
+def distShares (sub : String) (x : DecCoins) : List Share → List DState → DecCoins → List Event →
+    Outcome (List DState × DecCoins × List Event)
+  | [], sts, dflt, evs => .ok (sts, dflt, evs)
+  | sh :: rest, sts, dflt, evs =>
     let c := calcPercentage (sh.share.getD 0) x
     match sub? dflt c with
-    | none => Outcome.panic
-    | some d => dflt := d
-    if !isZero c then
-      if sh.dest.type ≠ tMain then
-        sts ← addToAccountState sts sh.dest c
-      evs := evs ++ [Event.distribution s.name sh.name c]
-  let c := calcPercentage (s.burnShare.getD 0) x
-  match sub? dflt c with
-  | none => Outcome.panic
-  | some d => dflt := d
-  let mut burnEv : List Event := []
-  if !isZero c then
-    sts := addToBurnState sts c
-    burnEv := [Event.burn s.name c]
-  if s.primary.type ≠ tMain then
-    sts ← addToAccountState sts s.primary dflt
-  evs := evs ++ [Event.distribution s.name (s.name ++ "_primary") dflt]
-  -- BeginBlocker emits the Distribution events of a sub-distributor first, then its burn event
-  return (sts, evs ++ burnEv)
+    | none => .panic
+    | some d =>
+      if !isZero c then
+        if sh.dest.type ≠ tMain then
+          match addToAccountState sts sh.dest c with
+          | .ok sts' => distShares sub x rest sts' d (evs ++ [Event.distribution sub sh.name c])
+          | .err => .err
+          | .panic => .panic
+        else distShares sub x rest sts d (evs ++ [Event.distribution sub sh.name c])
+      else distShares sub x rest sts d evs
+
+/-- `StartDistributionProcess` (D7 and D12 repairs) -/
+def startDistribution (sts : List DState) (x : DecCoins) (s : SubD) : Outcome (List DState × List Event) :=
+  match distShares s.name x s.shares sts x [] with
+  | .err => .err
+  | .panic => .panic
+  | .ok (sts1, dflt1, evs1) =>
+    let c := calcPercentage (s.burnShare.getD 0) x
+    match sub? dflt1 c with
+    | none => .panic
+    | some dflt =>
+      let sts2 := if !isZero c then addToBurnState sts1 c else sts1
+      let burnEv : List Event := if !isZero c then [Event.burn s.name c] else []
+      -- BeginBlocker emits the Distribution events of a sub-distributor first, then its burn event
+      let evs := evs1 ++ [Event.distribution s.name (s.name ++ "_primary") dflt] ++ burnEv
+      if s.primary.type ≠ tMain then
+        match addToAccountState sts2 s.primary dflt with
+        | .ok sts3 => .ok (sts3, evs)
+        | .err => .err
+        | .panic => .panic
+      else .ok (sts2, evs)
 
 def stateKey (s : DState) : String :=
   match s.account with
